@@ -332,7 +332,11 @@ var c11Advertised = probe.Define("C11", "advertised", func(t *rapid.T) c11AdvIn 
 		}); err != nil {
 			return probe.Fail("NewIKESAKey from the library's own proposal: %v", err)
 		}
-		if got.EncrInfo != sa.EncrInfo || got.IntegInfo != sa.IntegInfo || got.PrfInfo != sa.PrfInfo || got.DhInfo != sa.DhInfo {
+		if got.EncrInfo == nil || got.IntegInfo == nil || got.PrfInfo == nil || got.DhInfo == nil ||
+			got.EncrInfo.TransformID() != sa.EncrInfo.TransformID() || got.EncrInfo.GetKeyLength() != sa.EncrInfo.GetKeyLength() ||
+			got.IntegInfo.TransformID() != sa.IntegInfo.TransformID() || got.IntegInfo.GetKeyLength() != sa.IntegInfo.GetKeyLength() || got.IntegInfo.GetOutputLength() != sa.IntegInfo.GetOutputLength() ||
+			got.PrfInfo.TransformID() != sa.PrfInfo.TransformID() || got.PrfInfo.GetKeyLength() != sa.PrfInfo.GetKeyLength() ||
+			got.DhInfo.TransformID() != sa.DhInfo.TransformID() {
 			return probe.Fail("NewIKESAKey maps the proposal for %s %s %s %s to different algorithms", eName, iName, pName, dName)
 		}
 		if len(got.SK_ei) != ref.Encrs[s.Encr].KeyLen || len(got.SK_ai) != ref.Integs[s.Integ].KeyLen || len(got.SK_d) != ref.Prfs[s.Prf].KeyLen {
@@ -382,7 +386,15 @@ var c11Advertised = probe.Define("C11", "advertised", func(t *rapid.T) c11AdvIn 
 		}
 		return probe.Fail("NewChildSAKeyByProposal from the library's own proposal: %v", err)
 	}
-	if got.EncrKInfo != c.EncrKInfo || got.IntegKInfo != c.IntegKInfo || got.DhInfo != c.DhInfo || got.EsnInfo.GetNeedESN() != in.ESN {
+	same := got.EncrKInfo != nil && got.EncrKInfo.TransformID() == c.EncrKInfo.TransformID() && got.EncrKInfo.GetKeyLength() == c.EncrKInfo.GetKeyLength() &&
+		(got.IntegKInfo == nil) == (c.IntegKInfo == nil) && (got.DhInfo == nil) == (c.DhInfo == nil) && got.EsnInfo.GetNeedESN() == in.ESN
+	if same && c.IntegKInfo != nil {
+		same = got.IntegKInfo.TransformID() == c.IntegKInfo.TransformID() && got.IntegKInfo.GetKeyLength() == c.IntegKInfo.GetKeyLength()
+	}
+	if same && c.DhInfo != nil {
+		same = got.DhInfo.TransformID() == c.DhInfo.TransformID()
+	}
+	if !same {
 		return probe.Fail("NewChildSAKeyByProposal maps the proposal to different algorithms")
 	}
 	return probe.OK(true, "child-proposal")
